@@ -1782,7 +1782,7 @@ def p_each( ctx ):
     # does not support is raised OUTSIDE Object.request's own status-converting try ) is caught per member, inside the loop
     for c in calls:
         trs = [ a_ for a_ in src.ancestors( c.stmt ) if isinstance( a_, ast.Try ) and any( c.stmt is x_ for b_ in a_.body for x_ in ast.walk( b_ )) and any( a_ is x_ for x_ in ast.walk( f ))
-                and any( h_.type is None or dotted( h_.type ) in ( 'Exception', 'BaseException' ) for h_ in a_.handlers ) ]
+                and any(( h_.type is None or dotted( h_.type ) in ( 'Exception', 'BaseException' )) and not any( isinstance( r_, ast.Raise ) for r_ in ast.walk( h_ )) for h_ in a_.handlers ) ]
         if trs:
             res.ok( src, c.stmt, 'an exception escaping from one member is handled inside the member loop' )
         else:
@@ -1844,14 +1844,19 @@ def p_closure( ctx ):
     mloops = [ l_ for l_ in walk_no_nested( cl ) if isinstance( l_, ast.For ) and any( a_ is x_ for a_ in asserts for x_ in ast.walk( l_ )) ]
     for a_ in asserts:
         trs = [ t_ for t_ in src.ancestors( a_ ) if isinstance( t_, ast.Try ) and any( a_ is x_ for b_ in t_.body for x_ in ast.walk( b_ )) and any( t_ is x_ for l_ in mloops for x_ in ast.walk( l_ ))
-                and any( h_.type is None or dotted( h_.type ) in ( 'Exception', 'BaseException', 'AssertionError' ) for h_ in t_.handlers ) ]
+                and any(( h_.type is None or dotted( h_.type ) in ( 'Exception', 'BaseException', 'AssertionError' )) and not any( isinstance( r_, ast.Raise ) for r_ in ast.walk( h_ )) for h_ in t_.handlers ) ]
         if trs:
             res.ok( src, a_, 'a member that fails to parse is handled inside the member loop of the closure' )
         else:
             res.bad( src, a_, 'closure: a member that fails to parse ends the closure ( the terminal assertion escapes from the member loop )',
                      'the exception is only logged by the post-processing step: the bundle is answered with status 0 and FEWER member replies than requests; the members behind the unparseable one are never executed - one failing member affects its neighbours and the framing of the reply' )
     for ap in appends:
-        if anodes and ccfg.must_pass( ccfg.entry, ap, anodes, correlated=False ):
+        # on a path that by-passes the assertion ( a handler of the per-member failure ) the appended name has been RE-BOUND inside that handler:
+        # what joins the list there is a fresh place-holder, not the half-parsed member
+        appended = { dotted( a_ ) for c_ in ast.walk( ap.stmt ) if isinstance( c_, ast.Call ) and isinstance( c_.func, ast.Attribute ) and c_.func.attr in ( 'append', 'extend', 'insert' ) for a_ in c_.args if dotted( a_ ) }
+        fresh = [ n for n in ccfg.nodes if n.kind == 'stmt' and isinstance( n.stmt, ast.Assign ) and any( dotted( t_ ) in appended for t_ in n.stmt.targets )
+                  and any( isinstance( a_, ast.ExceptHandler ) for a_ in src.ancestors( n.stmt )) and is_call_to( n.stmt.value, 'dotdict', 'cpppo.dotdict' ) ]
+        if anodes and ccfg.must_pass( ccfg.entry, ap, anodes + fresh, correlated=False ):
             res.ok( src, ap.stmt, 'a member is appended to the requests to execute only after its parse was asserted terminal' )
         else:
             res.bad( src, ap.stmt, 'closure: %s is reached without passing the assertion that the member parsed completely' % norm_text( ap.stmt ),
